@@ -1084,6 +1084,7 @@ func isLocalMapOrSlice(fi *funcInfo, name string) bool {
 func lockShape(fi *funcInfo, writes map[string]bool, depth int) []string {
 	var evs []string
 	recv := recvVar(fi.decl)
+	releaseVars := map[string]bool{} // locals holding the release function of an acquire-and-return-release helper
 	var visitStmt func(s ast.Stmt)
 	access := func(e ast.Node) {
 		ast.Inspect(e, func(n ast.Node) bool {
@@ -1091,6 +1092,15 @@ func lockShape(fi *funcInfo, writes map[string]bool, depth int) []string {
 			case *ast.DeferStmt:
 				if isReleaseCall(x.Call) {
 					return false // the lock is held until the function returns
+				}
+				if inner, ok := x.Call.Fun.(*ast.CallExpr); ok { // defer tree.lockWrite()()
+					if m := acquireReturningRelease(treeFunc(calleeName(inner))); m != "" {
+						evs = append(evs, m)
+						return false
+					}
+				}
+				if id, ok := x.Call.Fun.(*ast.Ident); ok && releaseVars[id.Name] { // unlock := tree.lockRead(); defer unlock()
+					return false
 				}
 			case *ast.CallExpr:
 				nm := calleeName(x)
@@ -1133,6 +1143,17 @@ func lockShape(fi *funcInfo, writes map[string]bool, depth int) []string {
 					}
 				}
 			case *ast.AssignStmt:
+				if len(x.Lhs) == 1 && len(x.Rhs) == 1 {
+					if ce, ok := x.Rhs[0].(*ast.CallExpr); ok {
+						if m := acquireReturningRelease(treeFunc(calleeName(ce))); m != "" {
+							if id, ok := x.Lhs[0].(*ast.Ident); ok {
+								releaseVars[id.Name] = true
+								evs = append(evs, m)
+								return false
+							}
+						}
+					}
+				}
 				for _, l := range x.Lhs {
 					if _, isIdent := l.(*ast.Ident); !isIdent && sharedChain(fi, l) {
 						evs = append(evs, fmt.Sprintf(".write %s", strconv.Quote("direct:"+exprString(l))))
@@ -1210,6 +1231,52 @@ func releaseOnly(fi *funcInfo) bool {
 	return rel && !acq
 }
 
+// acquireReturningRelease: a helper that takes the tree lock and hands the matching release back to its caller
+// (`func (tree *Tree) lockWrite() func()`, used as `defer tree.lockWrite()()` or `unlock := tree.lockRead(); defer unlock()`).
+// Returns ".acqW" / ".acqR", or "" when fi is not such a helper.
+func acquireReturningRelease(fi *funcInfo) string {
+	if fi == nil || fi.decl.Body == nil || fi.decl.Type.Results == nil || len(fi.decl.Type.Results.List) != 1 {
+		return ""
+	}
+	if _, ok := fi.decl.Type.Results.List[0].Type.(*ast.FuncType); !ok {
+		return ""
+	}
+	mode, relValue, relCall := "", false, false
+	ast.Inspect(fi.decl.Body, func(n ast.Node) bool {
+		switch x := n.(type) {
+		case *ast.CallExpr:
+			switch calleeName(x) {
+			case "Lock":
+				mode = ".acqW"
+			case "RLock":
+				mode = ".acqR"
+			case "Unlock", "RUnlock":
+				relCall = true // released inside a returned closure is fine, a direct call is not
+			}
+		case *ast.ReturnStmt:
+			for _, r := range x.Results {
+				if se, ok := r.(*ast.SelectorExpr); ok && (se.Sel.Name == "Unlock" || se.Sel.Name == "RUnlock") {
+					relValue = true
+				}
+				if fl, ok := r.(*ast.FuncLit); ok {
+					ast.Inspect(fl.Body, func(m ast.Node) bool {
+						if ce, ok := m.(*ast.CallExpr); ok && (calleeName(ce) == "Unlock" || calleeName(ce) == "RUnlock") {
+							relValue = true
+						}
+						return true
+					})
+				}
+			}
+		}
+		return true
+	})
+	_ = relCall
+	if mode != "" && relValue {
+		return mode
+	}
+	return ""
+}
+
 func isReleaseCall(ce *ast.CallExpr) bool {
 	nm := calleeName(ce)
 	if nm == "Unlock" || nm == "RUnlock" {
@@ -1226,6 +1293,11 @@ func hasDeferredRelease(fi *funcInfo) bool {
 	ast.Inspect(fi.decl.Body, func(n ast.Node) bool {
 		if d, ok := n.(*ast.DeferStmt); ok && isReleaseCall(d.Call) {
 			found = true
+		}
+		if d, ok := n.(*ast.DeferStmt); ok {
+			if inner, ok := d.Call.Fun.(*ast.CallExpr); ok && acquireReturningRelease(treeFunc(calleeName(inner))) != "" {
+				found = true
+			}
 		}
 		return true
 	})
